@@ -173,11 +173,11 @@ K = {"T1": ["T1", False], "T2": ["T2", False], "T3": ["T3", False], "T1u": ["T1"
 
 
 def lines_gen(L, D, E, kinds, unit="  ", base=0, free=(), ws=(), blank=True, suffix="", simulate=None, code_a="", code_b="",
-              mb=False):
+              mb=False, max_code=99, empty_default=False):
     from vlib import TlaSet
     g = {"base": "GenLines", "constraint": "Feasible",
          "consts": {"L": L, "D": D, "E": E, "Kinds": TlaSet([K[k] for k in kinds]), "Unit": Chars(unit), "Base": base,
-                    "FreeInd": TlaSet(list(free)), "WsLens": TlaSet(list(ws)), "Blank": blank, "Suffix": Chars(suffix), "CodeA": Chars(code_a), "CodeB": Chars(code_b), "MbCode": mb,
+                    "FreeInd": TlaSet(list(free)), "WsLens": TlaSet(list(ws)), "Blank": blank, "Suffix": Chars(suffix), "CodeA": Chars(code_a), "CodeB": Chars(code_b), "MbCode": mb, "MaxCode": max_code, "EmptyDefault": empty_default,
                     "PastTo": Chars(PAST), "FutureTo": Chars(FUTURE),
                     "Tos": [Chars(t) for t in TOS], "Names": [Chars(n) for n in MNAMES]}}
     if simulate:
@@ -236,11 +236,11 @@ def unwrap_jobs(ctx, invariants, ops, lite=False):
     d = 2 if (q and lite) else 0
     cfg = {"ds": "<", "de": ">"}
     if q:
-        gens = [lines_gen(8 - d, 1, 1, ["Ru"], free=(1,), blank=True),
+        gens = [lines_gen(7 - d // 2, 1, 1, ["Ru"], free=(1,), blank=True),
                 lines_gen(6, 1, 1, ["Ru"], free=(0, 2), blank=False),
                 lines_gen(6 - d // 2, 2, 2, ["Ru", "R", "P"], free=(1,), blank=False),
                 lines_gen(10 - d, 2, 2, ["Ru"], blank=False),
-                lines_gen(11 if not lite else 8, 2, 3, ["Ru", "R"], blank=False),      # removed sibling before a nested pair
+                lines_gen(11, 2, 3, ["Ru", "R"], blank=False, max_code=5, empty_default=True),   # removed sibling before a nested pair
                 lines_gen(8 - d // 2, 2, 2, ["Ru", "Pu"], base=1, blank=False),
                 lines_gen(6, 1, 1, ["Tu"], unit="\t", free=(0, 2), blank=False, suffix="あ"),
                 lines_gen(6, 1, 1, ["Ru"], free=(0, 2), blank=False, base=1, code_b=" = 1"),       # interior blanks at the tag column
@@ -289,8 +289,21 @@ def impl_model_checking(ctx):
         ctx.mc("impl-" + nm, "MC_Impl", consts, ["ImplSatisfiesR"], constraint="Feasible")
 
 
+def conformance_job(ctx, invariants):
+    """impl -> Layer I: every stage event of clean / list / list_all (incl. the formatter's seam, block and final
+    ranges) is compared with the value the transcription computes; mismatches are reported as DRIFT, never as a verdict"""
+    q = ctx.quick
+    gens = [lines_gen(4 if q else 6, 2, 2, ["R", "P", "Ru"], ws=(2,)),
+            lines_gen(6 if q else 8, 2, 2, ["Ru", "R"], blank=False, base=1),
+            lines_gen(4 if q else 6, 2, 2, ["T", "F", "Pu"], unit="\t", base=1, suffix="é")]
+    ctx.job("conformance", gens=gens, invariants=invariants,
+            ops=[{"op": "tokenize"}, {"op": "tree"}, {"op": "clean"}, {"op": "list_json"}, {"op": "list_all_json"}],
+            cfg={"ds": "<", "de": ">"}, nontrivial=has_ready, fmt_hooks=True, conform=True)
+
+
 def check_C02(ctx):
     impl_model_checking(ctx)
+    conformance_job(ctx, ["Inv_C02"])
     block_jobs(ctx, ["Inv_C02"], [{"op": "clean"}])
     unwrap_jobs(ctx, ["Inv_C02"], [{"op": "clean"}])
     inline_jobs(ctx, ["Inv_C02"], [{"op": "clean"}])
@@ -298,7 +311,7 @@ def check_C02(ctx):
 
 
 def check_C03(ctx):
-    block_jobs(ctx, ["Inv_C03"], [{"op": "clean"}])
+    block_jobs(ctx, ["Inv_C03"], [{"op": "clean"}], lite=True)
     unwrap_jobs(ctx, ["Inv_C03"], [{"op": "clean"}])
     inline_jobs(ctx, ["Inv_C03"], [{"op": "clean"}])
     junk_jobs(ctx, ["Inv_C03"], [{"op": "clean"}], has_ready)
@@ -306,7 +319,7 @@ def check_C03(ctx):
 
 def check_C04(ctx):
     block_jobs(ctx, ["Inv_C04"], [{"op": "clean"}])
-    unwrap_jobs(ctx, ["Inv_C04"], [{"op": "clean"}])
+    unwrap_jobs(ctx, ["Inv_C04"], [{"op": "clean"}], lite=True)
     inline_jobs(ctx, ["Inv_C04"], [{"op": "clean"}])
     chars_jobs(ctx, ["Inv_C04"], [{"op": "clean"}], None, pairs_quick=2)
     junk_jobs(ctx, ["Inv_C04"], [{"op": "clean"}], None)
@@ -325,8 +338,8 @@ def check_C13(ctx):
 
 
 def check_C14(ctx):
-    block_jobs(ctx, ["Inv_C14"], [{"op": "clean"}])
-    unwrap_jobs(ctx, ["Inv_C14"], [{"op": "clean"}])
+    block_jobs(ctx, ["Inv_C14"], [{"op": "clean"}], lite=True)
+    unwrap_jobs(ctx, ["Inv_C14"], [{"op": "clean"}], lite=False)
     inline_jobs(ctx, ["Inv_C14"], [{"op": "clean"}])
 
 
@@ -521,12 +534,12 @@ def check_C18(ctx):
                 cfg={"ds": ds, "de": de, "tl": tl, "rm": rm}, nontrivial=has_ready)
 
 
-def chains():
+def chains(quick=False):
     # clocks: tau_k lies after T_k expired and before T_{k+1}; day numbers of 2001-06-01, 2002-06-01, 2003-06-01
     t = [[11474, 0], [11839, 0], [12204, 0]]
     tg = [[], ["m1"], ["m1", "m2"], ["m1", "m2", "m3"]]
     out = []
-    for seq in [(0,), (2,), (0, 1), (0, 2), (1, 2), (0, 1, 2), (0, 0, 2), (1, 1)]:
+    for seq in ([(2,), (0, 1), (1, 2), (0, 1, 2), (0, 0, 2)] if quick else [(0,), (2,), (0, 1), (0, 2), (1, 2), (0, 1, 2), (0, 0, 2), (1, 1)]):
         out.append([{"now": t[k], "targets": [Chars(x) for x in tg[k + 1]]} for k in seq])
     return out
 
@@ -560,7 +573,7 @@ def check_C19(ctx):
     for (name, g) in sets:
         g["base"] = "GenHist"
         g["emit"] = "EmitHist"
-        g["consts"]["Chains"] = chains()
+        g["consts"]["Chains"] = chains(q)
         ctx.job(name, gens=[g], invariants=["Inv_C19"], ops=[], cfg=cfg, nontrivial=has_ready)
 
 
